@@ -11,6 +11,13 @@
 (* to a nor to b).  ann = "none": the field is empty.  The block is        *)
 (* genuine iff ann = hdr.  Bodies are not looked at by this layer.         *)
 (*                                                                         *)
+(* Third component ("cs" \in Parts): the chain service behind those paths   *)
+(* (chain/chainhandle.go addBlock), where the body counts: a block is       *)
+(* [ann, hdr, body], the genuine header commits to the body through the    *)
+(* transaction merkle root, and that root is computed with the padding rule *)
+(* of internal/merkle (a missing right child is a copy of the left one), so *)
+(* bodies that repeat the tail of the genuine body have the genuine root.   *)
+(*                                                                         *)
 (* CheckDigest = TRUE is the intended design (content that does not hash   *)
 (* to the announced identifier is discarded without trace);                *)
 (* CheckDigest = FALSE is the code as read (nothing on the receive paths   *)
@@ -24,7 +31,10 @@ CONSTANTS Ids,          \* block identifiers = header digests
           SeqItems,     \* the delivered blocks that multi-block messages are built from (Items, or a subset of it)
           Parts,        \* subset of {"sm", "recv"}: which component's actions are enabled
           Interleave,   \* FALSE: the two components are explored separately (generation)
-          CheckDigest
+          CheckDigest,
+          BodySizes,    \* chain service: the numbers of transactions the genuine block a may hold
+          MaxArrive,    \* chain service: bound on the number of arrivals
+          RepeatGuard   \* chain service: TRUE = a body holding a transaction twice is dropped at the door (chain.hasRepeatedTx)
 
 Anns  == Ids \cup {"none"}
 Items == [ann : Anns, hdr : Ids]
@@ -32,26 +42,77 @@ ASSUME SeqItems \subseteq Items
 Genuine(it) == it.ann = it.hdr
 Forged(it)  == it.ann # "none" /\ it.ann # it.hdr
 
+\* ------------------------------------------------------------------ transaction lists and their merkle root
+\* (internal/merkle/merkle.go CalculateMerkleTree, over an injective symbolic node hash; same rule as spec/commit/Commitments.tla)
+Nil == <<"nil">>
+RECURSIVE Pow2AtLeast(_, _)
+Pow2AtLeast(x, n) == IF x >= n THEN x ELSE Pow2AtLeast(2 * x, n)
+Level0(l) == [i \in 1..Pow2AtLeast(1, Len(l)) |-> IF i <= Len(l) THEN <<"L", l[i]>> ELSE Nil]
+LevelUp(lv) == [i \in 1..(Len(lv) \div 2) |->
+                  LET lc == lv[2 * i - 1]
+                      rc == lv[2 * i]
+                  IN IF lc = Nil THEN Nil ELSE IF rc = Nil THEN <<"N", lc, lc>> ELSE <<"N", lc, rc>>]
+RECURSIVE Collapse(_)
+Collapse(lv) == IF Len(lv) = 1 THEN lv[1] ELSE Collapse(LevelUp(lv))
+MRoot(l) == IF Len(l) = 0 THEN <<"zero">> ELSE Collapse(Level0(l))
+\* the full leaf row the padding rule makes of a list: at every level an odd number of blocks gets its last block repeated
+RECURSIVE ExpandTo(_, _)
+ExpandTo(l, w) ==
+  IF Len(l) <= w THEN l
+  ELSE LET nb == Len(l) \div w
+           l2 == IF nb % 2 = 1 THEN l \o SubSeq(l, Len(l) - w + 1, Len(l)) ELSE l
+       IN ExpandTo(l2, 2 * w)
+Expand(l) == ExpandTo(l, 1)
+\* every other list with the root of l: the root is the full binary tree over Expand(l), and Expand only appends, so a list
+\* with the same root is a prefix of Expand(l) that expands to the same row (cross-checked against MRoot by brute force in
+\* MC_BlockRecvCS.tla).  For the genuine body [t1..t6]: [t1..t6,t5,t6]; for [t1..t5]: [..t5,t5], [..t5,t5,t5], [..t5,t5,t5,t5].
+PadVariants(l) == LET E == Expand(l) IN {p \in {SubSeq(E, 1, k) : k \in 1..Len(E)} : p # l /\ Expand(p) = E}
+InjectiveSeq(l) == \A i, j \in DOMAIN l : l[i] = l[j] => i = j
+
+\* the genuine body of block a with n transactions, and the altered bodies a relay may attach to a's genuine header
+\* (transaction n + 1 is a valid transaction that is not in the block)
+Gen(n) == [i \in 1..n |-> i]
+AlteredBodies(n) ==
+  [emptied |-> {<<>>},
+   dropped |-> IF n >= 2 THEN {SubSeq(Gen(n), 1, n - 1)} ELSE {},
+   swapped |-> IF n >= 2 THEN {[i \in 1..n |-> IF i = 1 THEN n ELSE IF i = n THEN 1 ELSE i]} ELSE {},
+   substituted |-> {[i \in 1..n |-> IF i = n THEN n + 1 ELSE i], <<n + 1>>},
+   appended |-> {Append(Gen(n), n + 1)},
+   padded |-> PadVariants(Gen(n))]
+BodyKinds == {"emptied", "dropped", "swapped", "substituted", "appended", "padded"}
+CsItems(n) == {[ann |-> "a", hdr |-> "a", body |-> Gen(n), kind |-> "genuine"],
+               [ann |-> "a", hdr |-> "x", body |-> Gen(n), kind |-> "header"]}
+              \cup UNION {{[ann |-> "a", hdr |-> h, body |-> b, kind |-> k] : b \in AlteredBodies(n)[k], h \in {"a"}} : k \in BodyKinds}
+              \cup {[ann |-> "a", hdr |-> "x", body |-> b, kind |-> "header+padded"] : b \in PadVariants(Gen(n))}
+
 VARIABLES cache,     \* syncManager.blkCache: identifiers already seen (block notices)
           legit,     \* history: identifiers that entered the cache through an announcement that was not forged
           outF,      \* blocks handed to the chain service (AddBlock) by the last action
           outA,      \* identifiers requested back from the notifier (GetBlockInfos) by the last action
           req, off, got, rstat, rsp,   \* the chunk receiver: requested ids, offset, blocks kept, status, answer to the syncer
+          gn,        \* chain service: number of transactions of the genuine block a (0: component not explored)
+          conn,      \* chain service: is a block connected under the identifier of a, and with which body
+          bad,       \* chain service: ChainService.errBlocks, the identifiers of genuine blocks cached as errored
+          narr,      \* chain service: arrivals so far
           lastAct
 
-vars == <<cache, legit, outF, outA, req, off, got, rstat, rsp, lastAct>>
-view == <<cache, legit, outF, outA, req, off, got, rstat, rsp>>
+csvars == <<gn, conn, bad, narr>>
+vars == <<cache, legit, outF, outA, req, off, got, rstat, rsp, gn, conn, bad, narr, lastAct>>
+view == <<cache, legit, outF, outA, req, off, got, rstat, rsp, gn, conn, bad, narr>>
 
 SeqsUpTo(S, n) == UNION {[1..k -> S] : k \in 0..n}
 
 NoRsp == [k |-> "none", blocks |-> <<>>]
+NotConn == [on |-> FALSE, body |-> <<>>]
 
 Init == /\ cache = {} /\ legit = {} /\ outF = <<>> /\ outA = <<>>
         /\ req = <<>> /\ off = 0 /\ got = <<>> /\ rstat = "none" /\ rsp = NoRsp
+        /\ gn \in (IF "cs" \in Parts THEN BodySizes ELSE {0}) /\ conn = NotConn /\ bad = {} /\ narr = 0
         /\ lastAct = [name |-> "Init"]
 
 SmIdle   == UNCHANGED <<cache, legit>> /\ outF' = <<>> /\ outA' = <<>>
 RecvIdle == UNCHANGED <<req, off, got, rstat, rsp>>
+CsIdle   == UNCHANGED csvars
 
 SmEnabled   == "sm" \in Parts /\ (Interleave \/ rstat = "none")
 RecvEnabled == "recv" \in Parts /\ (Interleave \/ (cache = {} /\ outF = <<>> /\ outA = <<>>))
@@ -68,7 +129,7 @@ BPNotice(it, auth) ==
                    /\ legit' = IF Genuine(it) THEN legit \cup {it.ann} ELSE legit
                    /\ outF' = <<it>> /\ outA' = <<>>
   /\ lastAct' = [name |-> "BPNotice", it |-> it, auth |-> auth]
-  /\ RecvIdle
+  /\ RecvIdle /\ CsIdle
 
 \* NewBlockNotice carrying only an identifier; known: the chain already has that block
 NewBlockNotice(id, known) ==
@@ -77,7 +138,7 @@ NewBlockNotice(id, known) ==
      ELSE /\ cache' = cache \cup {id} /\ legit' = legit \cup {id}
           /\ outF' = <<>> /\ outA' = IF known THEN <<>> ELSE <<id>>
   /\ lastAct' = [name |-> "NewBlockNotice", id |-> id, known |-> known]
-  /\ RecvIdle
+  /\ RecvIdle /\ CsIdle
 
 \* GetBlocksResponse that no chunk receiver is waiting for (answer to GetBlockInfos): a single block is passed on
 GetBlockRsp(its, ok) ==
@@ -85,14 +146,14 @@ GetBlockRsp(its, ok) ==
   /\ UNCHANGED <<cache, legit>> /\ outA' = <<>>
   /\ outF' = IF ok /\ Len(its) = 1 /\ ~(CheckDigest /\ Forged(its[1])) THEN its ELSE <<>>
   /\ lastAct' = [name |-> "GetBlockRsp", its |-> its, ok |-> ok]
-  /\ RecvIdle
+  /\ RecvIdle /\ CsIdle
 
 \* ------------------------------------------------------------------ the chunk receiver (BlocksChunkReceiver)
 StartGet(r) ==
   /\ RecvEnabled
   /\ req' = r /\ off' = 0 /\ got' = <<>> /\ rstat' = "waiting" /\ rsp' = NoRsp
   /\ lastAct' = [name |-> "StartGet", req |-> r]
-  /\ SmIdle
+  /\ SmIdle /\ CsIdle
 
 \* the loop of handleInWaiting over the blocks of one message: result <<offset, kept blocks, stopped with an error?>>
 RECURSIVE Take(_, _, _)
@@ -118,13 +179,34 @@ Chunk(its, hasNext, ok) ==
                ELSE IF t[1] < Len(req) THEN Cancel(FALSE)                      \* last message, blocks missing
                ELSE rsp' = [k |-> "ok", blocks |-> t[2]] /\ rstat' = "finished"
   /\ lastAct' = [name |-> "Chunk", its |-> its, hasNext |-> hasNext, ok |-> ok]
-  /\ SmIdle
+  /\ SmIdle /\ CsIdle
+
+\* ------------------------------------------------------------------ the chain service (ChainService.addBlock)
+\* the block reaches the chain service (from any of the paths above, from the syncer, from a block producer).  The
+\* announced identifier is not looked at: the block is named by the digest of its own header (ownID).  Header "x" is a's
+\* header with a field altered: another identifier, and the producer's signature no longer covers it.
+Arrive(it) ==
+  /\ "cs" \in Parts /\ narr < MaxArrive
+  /\ narr' = narr + 1 /\ gn' = gn
+  /\ LET committed == MRoot(it.body) = MRoot(Gen(gn))            \* TxsRootHash of the header = root of the body received
+         res == IF it.hdr # "a" THEN "refused"                                  \* not block a at all
+                ELSE IF ~committed THEN "dropped"                                \* the body is not the committed one: no trace
+                ELSE IF RepeatGuard /\ ~InjectiveSeq(it.body) THEN "dropped"     \* padded body: no trace
+                ELSE IF "a" \in bad THEN "cached"
+                ELSE IF conn.on THEN "known"
+                ELSE IF it.body = Gen(gn) THEN "connected"
+                ELSE "failed"                                                    \* executed, a transaction fails (nonce used)
+     IN /\ conn' = IF res = "connected" THEN [on |-> TRUE, body |-> it.body] ELSE conn
+        /\ bad' = IF res = "failed" THEN bad \cup {"a"} ELSE bad
+        /\ lastAct' = [name |-> "Arrive", it |-> it, res |-> res]
+  /\ SmIdle /\ RecvIdle
 
 Next == \/ \E it \in Items, auth \in BOOLEAN : BPNotice(it, auth)
         \/ \E id \in Ids, known \in BOOLEAN : NewBlockNotice(id, known)
         \/ \E its \in SeqsUpTo(SeqItems, ChunkMax), ok \in BOOLEAN : GetBlockRsp(its, ok)
         \/ \E r \in Reqs : StartGet(r)
         \/ \E its \in SeqsUpTo(SeqItems, ChunkMax), hasNext \in BOOLEAN, ok \in BOOLEAN : Chunk(its, hasNext, ok)
+        \/ \E it \in CsItems(gn) : Arrive(it)
 
 Spec == Init /\ [][Next]_vars
 
@@ -148,6 +230,18 @@ GenuineAccepted == [][(lastAct'.name = "BPNotice" /\ Genuine(lastAct'.it) /\ las
                         => outF' = <<lastAct'.it>>]_vars
 AnnouncementHeard == [][(lastAct'.name = "NewBlockNotice" /\ ~lastAct'.known /\ lastAct'.id \notin legit)
                         => outA' = <<lastAct'.id>>]_vars
+
+\* ---- chain service: content that is not the genuine block never affects what the node accepts later
+\* the acceptance test is binding: among all the bodies a relay can attach, only the genuine one passes root check + repeat guard
+AcceptBinding == \A it \in CsItems(gn) : (it.hdr = "a" /\ MRoot(it.body) = MRoot(Gen(gn)) /\ InjectiveSeq(it.body)) => it.body = Gen(gn)
+\* the padded bodies are exactly the altered bodies that the root alone cannot tell from the genuine one
+PaddedAreTheCollisions == \A it \in CsItems(gn) : (it.hdr = "a" /\ it.kind # "genuine") => ((MRoot(it.body) = MRoot(Gen(gn))) <=> it.kind = "padded")
+\* a forged copy is never connected, nothing is cached as errored under the genuine identifier ...
+ForgedNeverConnected == conn.on => conn.body = Gen(gn)
+NoPoison == bad = {}
+\* ... so the genuine block is connected when it arrives, whatever arrived before it
+GenuineConnected == [][(lastAct'.name = "Arrive" /\ lastAct'.it.kind = "genuine") => (conn'.on /\ conn'.body = Gen(gn))]_vars
+ForgedNoTraceCs == [][(lastAct'.name = "Arrive" /\ lastAct'.it.kind # "genuine") => (conn' = conn /\ bad' = bad)]_vars
 
 \* the syncer is answered at most once per receiver, and a finished/canceled receiver stays so
 OneAnswer == [][(lastAct'.name = "Chunk" /\ rsp.k # "none") => rsp' = rsp]_vars
